@@ -136,6 +136,9 @@ class Auth(object):
         salt = data[:salt_length]
         expected = data[salt_length:]
 
+        if length < 1 or len(expected) != length:
+            raise ValueError("invalid digest length")
+
         kdf = scrypt.Scrypt(salt, length, N, r, p, backend=default_backend())
 
         result = False
